@@ -21,7 +21,7 @@ Theorem C02_accepted_passed_final_rules :
     Forall2 (fun d a => (a_mand d = true -> hasval a = true) /\ card_end (a_card d) (cnt a) = Ok tt)
             (firstn (length (arts s)) (args c)) (firstn (length (args c)) (arts s)) /\
     Forall (fun e => fst e <> KRequired) (pend s) /\
-    Forall2 gc_satisfied (firstn (length (gsts s)) (gcons c)) (firstn (length (gcons c)) (gsts s)).
+    Forall2 (gc_satisfied (arts s)) (firstn (length (gsts s)) (gcons c)) (firstn (length (gcons c)) (gsts s)).
 Proof. intros c inits fl env argv s H. apply final_checks_ok. eapply eval_arguments_final. exact H. Qed.
 Print Assumptions C02_accepted_passed_final_rules.
 
